@@ -16,6 +16,9 @@ Streams (S3, model vs implementation)
   parse-wrongtype    reference bytes in which known header fields carry a variant of another basic type
                      (a signature sent as STRING of 300 characters or as UINT32, a path as STRING, ...), unknown
                      message types, truncated messages: outside the statement (no oracle), model vs implementation only
+  fragment-vs-general  model against model, inside the driver: the header fragment of Msg/HeaderCode.lean against the
+                     general code model of the wire codec (Wire/Code.lean, C01/C02) on the signature yyyyuua(yv),
+                     for every header built and every message parsed above (`gen=` in the driver's answers)
 Oracle (S4, implementation only; nothing from the model):
   * wf_parse (strict structural parser written from the specification) accepts rawMessage; type code,
     flag bits, version, serial = the fresh counter value != 0, body length word, the header fields are
@@ -37,7 +40,8 @@ try:                                    # the shared type-directed generator of 
 except Exception:                       # pragma: no cover - the local generator below is always available
     gv = None
 
-STREAMS = ['build', 'construct-malformed', 'parse-own', 'spec-bytes', 'parse-foreign', 'parse-wrongtype']
+STREAMS = ['build', 'construct-malformed', 'parse-own', 'spec-bytes', 'parse-foreign', 'parse-wrongtype',
+           'fragment-vs-general']
 THEOREMS = ['marshal_wellformed', 'serial_fresh', 'parse_marshal', 'parse_foreign', 'cannot_construct']
 TRUSTED_BASE = [
     'message body bytes: the model takes the bytes marshal.marshal produced as an input (opaque body codec; '
@@ -590,6 +594,17 @@ def kv(line):
     return d
 
 
+def gen_bit(ctx, line, inp):
+    """The driver's own cross-check of the header fragment against the general wire-codec model."""
+    g = kv(line).get('gen')
+    if g is None or g == '-':
+        return
+    ctx.case('fragment-vs-general', sample=None)
+    if g != '1':
+        ctx.disagree('fragment-vs-general', inp, 'gen=' + g, 'gen=1',
+                     detail='Msg/HeaderCode.lean and Wire/Code.lean disagree on the header of this message')
+
+
 def build_obs_from_model(line):
     d = kv(line)
     if d['_head'] == 'ok':
@@ -741,6 +756,7 @@ def judge_build(ctx, marshal, message, stream, x, mline):
         mo = build_obs_from_model(mline)
         if mo != obs:
             ctx.disagree(stream, public(x), mo, obs)
+        gen_bit(ctx, mline, public(x))
     ctx.stat('%s:%s:%s' % (stream, x['cls'], 'ok' if obs['ok'] else obs['err']))
     # ---- S4
     bad = invalid_name_slots(x)
@@ -987,6 +1003,7 @@ def run_parse_own(ctx, message, built):
             mv = view_from_model(out[i])
             if mv != v:
                 ctx.disagree('parse-own', public(x), mv, v)
+            gen_bit(ctx, out[i], public(x))
         if not in_domain(x):
             continue
         if not v['ok']:
@@ -1062,6 +1079,7 @@ def run_foreign_cases(ctx, message, cases):
             mv = view_from_model(pout[pos[i]])
             if mv != v:
                 ctx.disagree('parse-foreign', inp, mv, v)
+            gen_bit(ctx, pout[pos[i]], inp)
         if not v['ok']:
             ctx.violation('parse-foreign-raises', 'parseMessage raises %s on a spec-conformant %s-endian message'
                           % (v['err'], 'big' if big else 'little'), inp=inp, observed=v['err'], expected='the message')
@@ -1127,6 +1145,7 @@ def run_wrongtype(ctx, marshal, message, n):
         if out is not None:
             mv = view_from_model(out[i])
             # body decoding errors belong to the codec model (C01/C05): once the header is through, compare the header part
+            gen_bit(ctx, out[i], {'kind': 'raw', 'raw': hexs(raw), 'fds': fds, 'what': kind})
             if mv.get('err') == 'Exception':
                 # PyErr.other: the header holds a variant of a container type - outside the fragment of the header
                 # codec that Msg/HeaderCode.lean models (the general codec is C01/C02/C05's model)
